@@ -84,6 +84,32 @@ CHECKS = {
          "All 16 todo subsets must be accepted. For 4 subsets the state machine (parameter cache, service cache, current overrides) is explored breadth-first to depth 4 (quick, ~12.7k transitions) / 5 (thorough) over 15 operations; every transition is executed on a fresh real container; compared: todo errors, values seen by dependants not yet constructed at override time, laziness (zero function calls after construction, counters afterwards), reached cache state. Observations the statement leaves open (dependants constructed before the override) are masked.",
          "trusted: reference model as state enumerator; masking rule for unspecified observations",
          "3/C15", "HIST-X"),
+
+ "C08": ("model_checking",
+         "stateless DFS over map-iteration-order choice points injected with go build -overlay (deviation-bounded), plus exhaustive key permutations and an environment grid",
+         "Every range-over-map in the tool's non-test code (located with go/types, rewritten at build time) becomes a choice point offering every permutation of the entries; for 10 configurations (valid and invalid with several simultaneous defects of every class) all executions with <=1 (quick, ~3000) / <=2 (thorough) non-canonical choices are run and exit status, report and -o bytes must be identical; every permutation of the keys of each YAML mapping must give identical bytes; the real binary is run under 6 environments x 2 working directories and 30 fresh processes per configuration (the latter a backstop, not the deciding step).",
+         "trusted: the overlay rewriter (its output is compiled; intercepted and non-intercepted sites are listed in the evidence); map iteration inside third-party packages is only sampled by the fresh-process backstop",
+         "3/C08", "CHOICE-X"),
+ "C09": ("exploration",
+         "bounded-exhaustive enumeration of all splits of configurations into files, overriding pairs, pattern/file-name assignments, and the algebra of the real merge function",
+         "Three base configurations of 8-10 atoms x every order-respecting assignment of atoms to 3 files (~14k splits): -o bytes must equal the single-file form; 18 overriding pairs x 3 placements; 8 file-naming / pattern scenarios (incl. a directory glob whose lexical path order differs from directory order, uncleaned patterns); associativity over all triples and identity over all elements of a universe of inputs, on the real input.Merge.",
+         "trusted: the single-file equivalent is constructed from abstract atoms, never by merging YAML",
+         "3/C09", "CFG-X"),
+ "C10": ("fault_enumeration",
+         "exhaustive enumeration of configuration class x flags x output pre-state x injected file-system answers (every fs call of the runner is a choice point, <=1 / <=2 faults)",
+         "20 configuration/environment classes x 16 flag combinations x 5 output pre-states; for every fault-free run every os.ReadFile / os.WriteFile / filepath.Glob call of the runner (rewritten with go build -overlay) is failed in turn (EACCES, EIO, ErrBadPattern; thorough: pairs): exit 0 iff the -o path holds exactly the fault-free bytes (and parses), otherwise the path is byte-for-byte and stat-for-stat unchanged; the numbered error list matches the failing step's count; --quiet prints nothing and changes neither exit status nor file effects; real binaries confirm the exit status per class.",
+         "trusted: the fs shim; writes failing after truncation are outside the statement's fault list",
+         "3/C10", "CHOICE-X"),
+ "C12": ("exploration",
+         "bounded-exhaustive enumeration of byte strings, schema-aware node-kind confusions, glob patterns, flag combinations and dense graphs, each executed in crash/hang-isolated workers",
+         "All byte strings of length <=3 (quick) / <=4 (thorough) over 22 YAML-significant bytes as whole file and spliced at 3 anchors, 41 schema positions x 30 node shapes singly and in pairs, all glob patterns of length <=3/<=4 over 10 characters, all 64 flag presence combinations, complete digraphs up to K5/K6 as service / parameter / tag graphs, nesting up to depth 4096 and 64 KiB names: the command must return, exit 0 or 1, and obey the output-file contract. A worker that dies or exceeds the watchdog is re-run three times in isolation before it is reported.",
+         "trusted: per-case watchdog (120 s) as the definition of a hang",
+         "3/C12", "CFG-X"),
+ "C20": ("model_checking",
+         "preemption-bounded stateless DFS over thread interleavings of real generated code and a sync-shimmed copy of the pinned runtime (cooperative scheduler), plus a separate free-running -race pass",
+         "8 collision-forcing drivers x 3 threads: every interleaving with <=2 preemptions (quick, ~210k complete executions) / <=3 preemptions and 2-operation threads (thorough, time-capped and reported) with scheduling points before every Mutex.Lock, RWMutex.RLock/Lock, Once.Do of the runtime and before every statement of generated code; each execution must not deadlock and must return exactly the sequential run's canonical object graphs and counters (each shared service / parameter built once, contextual instances per context). The same bodies run free on the real sync package under -race (16 goroutines x 200 rounds).",
+         "trusted: the scheduler and shim (RWMutex with writer preference); accesses below statement / sync-operation granularity are left to the race detector pass",
+         "3/C20", "SCHED-X"),
 }
 
 NOT_YET = {
